@@ -14,7 +14,7 @@
    every iteration order of the Go map; these theorems quantify over all strategies, parameters
    and node lists. *)
 From Verif Require Import Lib.Base Model.C07_Strategies Model.C07_Spec
-  Proofs.C07 Proofs.C07_Acc Proofs.C07_Timed Proofs.C07_Outcomes Check.C07.
+  Proofs.C07 Proofs.C07_Acc Proofs.C07_Timed Proofs.C07_Outcomes Proofs.C07_Majority Check.C07.
 From Coq Require Import Permutation QArith.
 Open Scope N_scope.
 
@@ -187,10 +187,10 @@ Proof. vm_compute. auto. Qed.
    map ([order] a permutation of it): the value used is the first response of a most frequently
    reported key, with at least [thr] (and at least one) votes, and among equally frequent keys
    one with the highest head slot; nothing is used iff no key has [thr] votes.
-   [key] is the hash tree root of the content, so equal keys have equal head slots. *)
+   [key] is the hash tree root of the content, so responses with equal keys have equal head slots. *)
 Theorem C07_majority_returns_plurality :
   forall (V : Type) (key slot_of : V -> N) (vs : list V) (order : list (N * (V * Z))) (thr : Z),
-    (forall x y, key x = key y -> slot_of x = slot_of y) ->
+    (forall x y, In x vs -> In y vs -> key x = key y -> slot_of x = slot_of y) ->
     Permutation order (fold_left (bump key) vs []) ->
     match maj_result slot_of thr order with
     | Some v => find (fun x => key x =? key v) vs = Some v
@@ -302,6 +302,75 @@ Theorem C07_first_timed :
      \/ (r = RErr /\ t = p_timeout pr /\ forall p1 v1, In p1 ps -> gives pr p1 v1 -> p_timeout pr <= pv_time p1)).
 Proof. exact first_outcome_spec. Qed.
 Print Assumptions C07_first_timed.
+
+(* majority (attestation data with its threshold, block root with threshold 0), the harness giving
+   equal ids exactly to equal contents: the value used was given, acceptable, by a node no later
+   than the return; counting the nodes that gave an acceptable answer with a given id, it has at
+   least one and at least the threshold of votes by the return, no value had more votes before the
+   return, and a value with as many has no higher head slot.  Nothing is used only if no value
+   reached max(1, threshold) votes before the hard timeout: "used whenever at least the threshold of
+   nodes reported it within the timeout and never otherwise". *)
+Theorem C07_majority_timed :
+  forall st pr ps r t,
+    (template_of st = TMajAtt \/ template_of st = TMajRoot) -> ids_ok ps ->
+    In (r, t) (outcomes st pr ps) ->
+    t <= p_timeout pr /\
+    ((exists p0 v, r = result_of (Some v) /\ In p0 ps /\ gives_ok st pr p0 v /\ pv_time p0 <= t
+        /\ (1 <= cnt st pr ps (fun x => (x <=? t)%N) (v_id v))%Z
+        /\ (maj_thr st pr <= cnt st pr ps (fun x => (x <=? t)%N) (v_id v))%Z
+        /\ forall p1 v1, In p1 ps -> gives_ok st pr p1 v1 ->
+             (cnt st pr ps (fun x => (x <? t)%N) (v_id v1) <= cnt st pr ps (fun x => (x <=? t)%N) (v_id v))%Z
+             /\ (cnt st pr ps (fun x => (x <? t)%N) (v_id v1) = cnt st pr ps (fun x => (x <=? t)%N) (v_id v)
+                 -> vslot pr v1 <= vslot pr v))
+     \/ (r = RErr /\ forall p1 v1, In p1 ps -> gives_ok st pr p1 v1 ->
+           (cnt st pr ps (fun x => (x <? p_timeout pr)%N) (v_id v1) < Z.max 1 (maj_thr st pr))%Z)).
+Proof. exact maj_outcome_spec. Qed.
+Print Assumptions C07_majority_timed.
+
+(* Responses that fail the strategy's validity rules are never returned: whatever any of the
+   fourteen strategies returns other than an error is the content of an answer some node gave, no
+   later than the return, and that answer passes the strategy's validity rules ... *)
+Theorem C07_invalid_never_returned :
+  forall st pr ps r t, In (r, t) (outcomes st pr ps) ->
+    r = RErr \/ exists p0 v, r = result_of (Some v) /\ In p0 ps /\ gives_ok st pr p0 v /\ pv_time p0 <= t.
+Proof. exact outcomes_valid. Qed.
+Print Assumptions C07_invalid_never_returned.
+
+(* ... which are the rules the property states: data and target present and target epoch = the
+   slot's epoch (attestation data, best and majority); no execution payload before bellatrix,
+   otherwise a known version with a fee recipient that is present and not zero (proposals); data
+   present (aggregates, contributions).  They coincide with [spec_valid], the predicate the check
+   evaluates on the implementation's observed output. *)
+Theorem C07_validity_rules :
+  forall st pr r,
+    accepts st pr r = spec_valid st pr r
+    /\ (accepts st pr r = true ->
+        match st, r with
+        | (AttBest | AttMajority), RAtt nil_data nil_target _ _ target _ =>
+            nil_data = false /\ nil_target = false /\ target = p_slot pr / p_spe pr
+        | PropBest, RProp ver fee _ _ => ver = 1 \/ ver = 2 \/ (3 <= ver <= 5 /\ fee = 1)
+        | AggBest, RAgg nil_data _ _ => nil_data = false
+        | ContribBest, RContrib nil_data _ => nil_data = false
+        | _, _ => True
+        end).
+Proof.
+  intros st pr r. split; [|exact (accepts_rules st pr r)].
+  destruct st, r; try reflexivity.
+Qed.
+Print Assumptions C07_validity_rules.
+
+Example C07_invalid_example :
+  let pr := mk_params 2000 32 64 0 [] in
+  (* the higher-scoring attestation data has the wrong target epoch: the lower one is returned *)
+  outcomes AttBest pr [mk_prov 0 100 false (BRespond (mk_value 0 (RAtt false false 64 1 2 7)));
+                       mk_prov 1 200 false (BRespond (mk_value 1 (RAtt false false 64 2 3 7)))] = [(RVal 0, 200)]
+  /\ outcomes AttMajority (mk_params 2000 32 64 2 []) [mk_prov 0 100 false (BRespond (mk_value 0 (RAtt false false 64 1 2 7)));
+                       mk_prov 1 200 false (BRespond (mk_value 0 (RAtt false false 64 1 2 7)));
+                       mk_prov 2 300 false BError] = [(RVal 0, 200)]
+  /\ outcomes AttMajority (mk_params 2000 32 64 3 []) [mk_prov 0 100 false (BRespond (mk_value 0 (RAtt false false 64 1 2 7)));
+                       mk_prov 1 200 false (BRespond (mk_value 0 (RAtt false false 64 1 2 7)));
+                       mk_prov 2 300 false BError] = [(RErr, 300)].
+Proof. vm_compute. auto. Qed.
 
 (* non-vacuity: two nodes, the slower one better; it is returned when it answers before the soft
    timeout, and not waited for when it does not *)
